@@ -165,6 +165,7 @@ type c04Sched struct {
 	lt         int64
 	S          map[uint64]int64 // height -> logical time of the last logged success / skip
 	attempts   map[uint64]int
+	hdrCalls   map[uint64]int
 	stubborn   map[uint64]int
 	fair       bool
 	tail       uint64
@@ -189,6 +190,7 @@ type c04Params struct {
 	POutside  int             `json:"p_outside_pct"`
 	PBlock    int             `json:"p_block_pct"`
 	PCancel   int             `json:"p_cancelish_pct"`
+	PHdrFail  int             `json:"p_header_store_transient_fail_pct"`
 	BgEvery   time.Duration   `json:"bg_store_interval_ns"`
 	Backoff   []time.Duration `json:"backoff_ns"`
 	Events    int             `json:"events"`
@@ -389,6 +391,22 @@ func (m *c04Store) GetByHeight(ctx context.Context, h uint64) (*header.ExtendedH
 	t, hd := m.bounds()
 	if h < t || h > hd {
 		return nil, fmt.Errorf("c04 store: height %d outside [%d,%d]: %w", h, t, hd, libhead.ErrNotFound)
+	}
+	// transient header-store failure: the first lookup of some heights fails, later ones succeed
+	// (added after seeded change C13-b was missed: a worker must record the height as failed and go on)
+	if m.s != nil && m.s.p.PHdrFail > 0 {
+		m.s.mu.Lock()
+		if m.s.hdrCalls == nil {
+			m.s.hdrCalls = map[uint64]int{}
+		}
+		m.s.hdrCalls[h]++
+		first := m.s.hdrCalls[h] == 1
+		m.s.mu.Unlock()
+		x := (h + m.s.p.OcSeed) * 0x9e3779b97f4a7c15
+		x ^= x >> 31
+		if first && int(x%100) < m.s.p.PHdrFail {
+			return nil, fmt.Errorf("c04 store: transient failure looking up header %d", h)
+		}
 	}
 	return c04Header(h, "store"), nil
 }
